@@ -647,6 +647,38 @@ def _gradient_iterative(expr: Expression, wrt: Variable) -> Expression:
                 results[node_id] = _simplify_mul(cosh(operand), d_operand)
             elif current.op == "cosh":
                 results[node_id] = _simplify_mul(sinh(operand), d_operand)
+            elif current.op in ("asin", "acos", "asinh", "acosh"):
+                # 1/sqrt(1 - a^2), -1/sqrt(1 - a^2), 1/sqrt(1 + a^2), 1/sqrt(a^2 - 1)
+                from optyx.core.functions import sqrt as sqrt_fn
+
+                square = _simplify_mul(operand, operand)
+                if current.op == "asinh":
+                    inner = _simplify_add(Constant(1.0), square)
+                elif current.op == "acosh":
+                    inner = _simplify_sub(square, Constant(1.0))
+                else:
+                    inner = _simplify_sub(Constant(1.0), square)
+                factor = _simplify_div(Constant(1.0), sqrt_fn(inner))
+                if current.op == "acos":
+                    factor = _simplify_neg(factor)
+                results[node_id] = _simplify_mul(factor, d_operand)
+            elif current.op in ("atan", "atanh"):
+                # 1/(1 + a^2) and 1/(1 - a^2)
+                square = _simplify_mul(operand, operand)
+                if current.op == "atan":
+                    inner = _simplify_add(Constant(1.0), square)
+                else:
+                    inner = _simplify_sub(Constant(1.0), square)
+                results[node_id] = _simplify_mul(
+                    _simplify_div(Constant(1.0), inner), d_operand
+                )
+            elif current.op in ("log2", "log10"):
+                # 1/(a * ln(base))
+                ln_base = Constant(np.log(2.0 if current.op == "log2" else 10.0))
+                results[node_id] = _simplify_mul(
+                    _simplify_div(Constant(1.0), _simplify_mul(operand, ln_base)),
+                    d_operand,
+                )
             else:
                 # For other unary ops, fall back to numerical or raise
                 raise UnknownOperatorError(
